@@ -83,8 +83,10 @@ def case_env(case: dict, extra: dict) -> dict:
 # ------------------------------------------------------------------------------------------- generation
 
 
-def gen_edges(rng, n, weighted, neg):
+def gen_edges(rng, n, weighted, neg, dense=False):
     m = rng.randrange(0, 3 * n + 2)
+    if dense:  # hundreds of edges, many per node
+        m = rng.randrange(max(256, 4 * n + 1), max(256, 4 * n + 1) + 400)
     edges = []
     mode = rng.choice(["ints", "dyadic", "dyadic", "tiny"])
     tiny = 2.0 ** -40  # ~9e-13: still exact in both languages, but far below any plausible "rounding noise" tolerance
@@ -115,28 +117,31 @@ def generate(rng, tier):
     if rng.random() < 0.03:
         n = rng.randrange(12, 33)  # a few dozen nodes: longer paths, deeper union-find trees, more PageRank sweeps
     case = {"fn": fn, "n": n, "world": os.environ.get("VERIF_WORLD", "rust")}
+    dense = rng.random() < 0.004
+    if dense:
+        n = case["n"] = rng.randrange(8, 70)
     if fn == "floyd_warshall":
-        case["edges"] = gen_edges(rng, n, True, rng.random() < 0.4)
+        case["edges"] = gen_edges(rng, n, True, rng.random() < 0.4, dense)
         case["kw"] = {"directed": rng.random() < 0.5}
     elif fn == "bellman_ford":
-        case["edges"] = gen_edges(rng, n, True, rng.random() < 0.5)
+        case["edges"] = gen_edges(rng, n, True, rng.random() < 0.5 and not dense, dense)
         case["start"] = rng.randrange(n)
         case["kw"] = {"target": rng.choice([None, rng.randrange(n)])}
     elif fn == "dijkstra_edges":
-        case["edges"] = gen_edges(rng, n, True, False)
+        case["edges"] = gen_edges(rng, n, True, False, dense)
         case["start"] = rng.randrange(n)
         case["kw"] = {"target": rng.choice([None, rng.randrange(n)])}
     elif fn in ("bfs_edges", "dfs_edges"):
-        case["edges"] = gen_edges(rng, n, False, False)
+        case["edges"] = gen_edges(rng, n, False, False, dense)
         case["start"] = rng.randrange(n)
         case["kw"] = {"target": rng.choice([None, rng.randrange(n)])}
     elif fn == "kruskal":
-        case["edges"] = gen_edges(rng, n, True, rng.random() < 0.3)
+        case["edges"] = gen_edges(rng, n, True, rng.random() < 0.3, dense)
         case["kw"] = {"allow_forest": rng.random() < 0.5}
     elif fn == "pagerank_edges":
         case["edges"] = gen_edges(rng, n, False, False)
         case["kw"] = {"damping": rng.choice([0.5, 0.85, 0.99, 0.125]), "max_iter": rng.choice([1, 2, 5, 100, 1000]),
-                      "tol": rng.choice([1e-3, 1e-6, 1e-9])}
+                      "tol": rng.choice([1e-3, 1e-6, 1e-9, 0.0])}
     else:
         case["edges"] = gen_edges(rng, n, False, False)
         case["kw"] = {}
@@ -148,6 +153,13 @@ def generate(rng, tier):
     for k in list(case["kw"]):
         if rng.random() < 0.3:
             del case["kw"][k]
+    if case["edges"] and rng.random() < 0.3:
+        # the caller then replaces one entry of the same list in place (same length) and asks again
+        old = case["edges"][rng.randrange(len(case["edges"]))]
+        new = [rng.randrange(n), rng.randrange(n)] + [rng.choice([0, 1, 7, 2.5, 40])] * (len(old) - 2)
+        if fn == "topological_sort_edges" and new[0] > new[1]:
+            new[:2] = new[1], new[0]
+        case["edit"] = [rng.randrange(len(case["edges"])), new]
     return case
 
 
@@ -276,12 +288,13 @@ def compare_(case, a, b, la, lb):
     if name == "pagerank_edges":
         tol = case["kw"].get("tol", 1e-6)
         d = max(abs(a.solution[i] - b.solution[i]) for i in range(case["n"]))
-        if d > 10 * tol:
+        if d > max(10 * tol, 1e-9):  # the floor is for tol = 0: both replicas run every round, each with its own float summation order
             return "answers_differ", f"PageRank scores differ by {d} > 10*tol: {la}={a.solution} {lb}={b.solution}"
         if sa != sb:
             # float summation order may flip the convergence test only when the last max_diff sits on tol itself
             # (the Python body reports that max_diff as its objective)
-            if abs(a.objective - tol) > 1e-12 + 1e-9 * tol:
+            # (at tol = 0 no max_diff can be below tol in either replica, so there is nothing to excuse)
+            if tol == 0 or abs(a.objective - tol) > 1e-12 + 1e-9 * tol:
                 return "status_differs", (f"{la} {sa} after {a.iterations} iterations (last max_diff {a.objective!r}, tol {tol}), "
                                           f"{lb} {sb} after {b.iterations}")
         return None
@@ -414,6 +427,8 @@ def execute(case) -> Outcome:
                           f"differently / the caller's list was changed: {d[1] if d else shared}", route="rust", **key)
         except ERRORS as e:
             o.violate(PROP, f"exception:{type(e).__name__}", f"python after rust on the same list raised {e}", route="rust", **key)
+        if case.get("edit") and case["edges"] and not o.violations:
+            _second_round(case, shared, o, key)
         o.nontrivial = bool(feats)
     else:
         o.fault("backend_unavailable")
@@ -437,6 +452,38 @@ def execute(case) -> Outcome:
     o.trace.append([name, world, py.status.name, repr(py.objective), repr(py.solution)[:400]])
     o.steps = 3
     return o
+
+
+def _second_round(case, shared, o, key):
+    """The caller edits one entry of the list every route has already seen (same object, same length) and asks all
+    routes again; each must answer for the list as it is now, i.e. like the Python route on a brand-new list."""
+    name = case["fn"]
+    idx, new = case["edit"]
+    idx %= len(case["edges"])
+    case2 = copy.deepcopy(case)
+    case2["edges"][idx] = list(new)
+    shared[idx] = tuple(new)
+    answers = []
+    for route, be in (("python", "python"), ("rust", "rust"), ("default", None)):
+        try:
+            answers.append((route, guarded(call, case2, be, shared)))
+        except ERRORS as e:
+            answers.append((route, e))
+    try:
+        ref = guarded(call, case2, "python")  # brand-new list object
+    except ERRORS as e:
+        ref = e
+    for route, r in answers:
+        if isinstance(ref, BaseException) or isinstance(r, BaseException):
+            if type(ref) is not type(r) and not (isinstance(ref, BaseException) and isinstance(r, BaseException)):
+                o.violate(PROP, "stale_after_edit", f"{name}: after an in-place edit of entry {idx} to {new}: backend={route} on the edited list "
+                          f"gave {r!r}, python on a fresh copy gave {ref!r}", route=route, **key)
+            continue
+        err = validate(case2, r, route)
+        d = compare(case2, ref, r, "python(fresh copy of the edited list)", f"{route}(the edited list itself)")
+        if err or d:
+            o.violate(PROP, "stale_after_edit", f"{name}: after an in-place edit of entry {idx} to {new}: {err or d[1]}", route=route, **key)
+    o.probe("in_place_edit_second_round")
 
 
 def features(case):
@@ -470,4 +517,8 @@ def shrink(case):
     if case["kw"].get("target") is not None:
         c = copy.deepcopy(case)
         c["kw"]["target"] = None
+        yield c
+    if case.get("edit"):
+        c = copy.deepcopy(case)
+        del c["edit"]
         yield c
